@@ -344,6 +344,18 @@ func (in *Interp) doAssert(c *Term, id string, kfID string, region *Term) {
 	if in.spec > 0 {
 		panic(specAbort{"assert in speculation"})
 	}
+	if len(in.cfg.AssertPrefix) > 0 {
+		mine := false
+		for _, p := range in.cfg.AssertPrefix {
+			if strings.HasPrefix(id, p) {
+				mine = true
+				break
+			}
+		}
+		if !mine {
+			return
+		}
+	}
 	in.Stats.Asserts++
 	bad := in.ts.Not(c)
 	if !in.cfg.EagerAsserts {
